@@ -82,6 +82,25 @@ CHECKS = [
           'threads run inline.  Outside: two crashes, forks deeper than 3, scenarios violating the property\'s '
           'height >= 2 x depth proviso.',
   'design_ref': 'DESIGN.md section 4, C05'},
+ {'id': 'C14',
+  'text': 'A history database is built through the real History.flush with every entry a symbolic 40-bit tx number; the '
+          'compaction tool\'s loop (_compact_history/_compact_prefix/_compact_hashX/_flush_compaction, set_flush_count) '
+          'runs with max_hist_row_entries 2/3 and a symbolic batch limit and is completed, or stopped after 1-2 batches '
+          'and resumed, or abandoned by a normal start (_cancel_compaction); get_txnums of every script hash is proved '
+          'unchanged at every stage, and a further flush plus History.backup at a symbolic threshold on top is proved '
+          'equal to the reference.  The real electrumx_compact_history script is also executed from its source.',
+  'note': 'Under the property\'s own restriction (no script hash with more compacted rows than flushes).  Trusted: as C01; '
+          'script-hash keys concrete (the tool walks all 65536 two-byte prefixes).',
+  'design_ref': 'DESIGN.md section 4, C14'},
+ {'id': 'C15',
+  'text': 'k blocks are indexed by the real advance_block with the reorg limit a symbolic integer >= 1 and the daemon\'s '
+          'cached height at each block symbolic (non-decreasing, caught up at the end); z3 shows for all limits and '
+          'trajectories that undo information exists for every height in (tip-L, tip], that after a restart nothing '
+          'older remains and the window is intact, and that the real backup_block succeeds for exactly min(L, k-1) '
+          'blocks and then refuses with ChainError.',
+  'note': 'Trusted: as C01.  Only comparisons are involved, so paths partition the integers by order type; k <= 3 '
+          '(quick) / 5 (thorough) blocks.',
+  'design_ref': 'DESIGN.md section 4, C15'},
 ]
 _TODO = 'check not built yet in this revision (planned, see DESIGN.md section 4); no claim is made'
-NOT_APPLICABLE = [{'property_id': f'C{n:02d}', 'reason': _TODO} for n in range(1, 20) if n not in (1, 2, 3, 4, 5, 12, 13)]
+NOT_APPLICABLE = [{'property_id': f'C{n:02d}', 'reason': _TODO} for n in range(1, 20) if n not in (1, 2, 3, 4, 5, 12, 13, 14, 15)]
